@@ -868,10 +868,51 @@ func c16Caller(p *ana.Prog, r *ana.Result) {
 		return
 	}
 	n := 0
-	for _, f := range append([]*ssa.Function{run}, run.AnonFuncs...) {
+	// the timeout may be handed down through a named worker's parameter: then every call / go
+	// site of that worker passes cfg.SyncTimeout
+	var isSyncTimeout func(v ssa.Value, depth int) bool
+	isSyncTimeout = func(v ssa.Value, depth int) bool {
+		if strings.HasSuffix(ana.AccessPath(v), "cfg.SyncTimeout") {
+			return true
+		}
+		par, ok := v.(*ssa.Parameter)
+		if !ok || depth > 2 {
+			return false
+		}
+		pf := par.Parent()
+		idx := -1
+		for i, q := range pf.Params {
+			if q == par {
+				idx = i
+			}
+		}
+		sites := 0
+		for _, g := range p.AllFuncs {
+			for _, b := range g.Blocks {
+				for _, in := range b.Instrs {
+					ci, ok := in.(ssa.CallInstruction)
+					if !ok || ci.Common().StaticCallee() != pf {
+						continue
+					}
+					sites++
+					if idx < 0 || idx >= len(ci.Common().Args) || !isSyncTimeout(ci.Common().Args[idx], depth+1) {
+						return false
+					}
+				}
+			}
+		}
+		return sites > 0
+	}
+	var callers []*ssa.Function
+	for _, f := range p.AllFuncs {
+		if f.Pkg == run.Pkg {
+			callers = append(callers, f)
+		}
+	}
+	for _, f := range callers {
 		for _, c := range ana.CallsIn(f, ana.Q("core/sync.measureOffsetToRefClks")) {
 			n++
-			if strings.HasSuffix(ana.AccessPath(c.Common().Args[3]), "cfg.SyncTimeout") {
+			if isSyncTimeout(c.Common().Args[3], 0) {
 				r.Ok("C16.deadline", ana.FuncName(f), "timeout-is-SyncTimeout", posOf(p, c), "timeout argument is cfg.SyncTimeout")
 			} else {
 				r.Violate("C16.deadline", ana.FuncName(f), "timeout-is-SyncTimeout", posOf(p, c), "the round's timeout is not cfg.SyncTimeout")
